@@ -470,4 +470,13 @@ def rule_plumbing(ctx):
     c15c(ctx)
 
 
-RULES = [('C17.a', rule_a), ('C17.b', rule_b), ('C17.c', rule_c), ('C17.d', rule_d), ('C17.e', rule_e), ('C17.f', rule_f), ('C17.b+C11.a+C11.g', rule_plumbing), ('C17.g', rule_g)]
+
+def rule_lease_per_connection(ctx):
+    """(shared C14.e)  Every connection of a reconnecting client announces its leases: connect() subscribes the
+    configured lease publisher on every path - not only the first time - with a subscriber bound to this socket, so
+    the requests of the peer's new session are not held for ever (rules/plumbing.py)."""
+    from . import plumbing
+    plumbing.rule_lease_wiring(ctx, 'C14.e')
+
+
+RULES = [('C17.a', rule_a), ('C17.b', rule_b), ('C17.c', rule_c), ('C17.d', rule_d), ('C17.e', rule_e), ('C17.f', rule_f), ('C17.b+C11.a+C11.g', rule_plumbing), ('C17.g', rule_g), ('C14.e', rule_lease_per_connection)]
